@@ -32,4 +32,4 @@ def c07_local_class_instantiated_in_place(case, what):
     return (what.startswith("flatten raised IndexError")
             or what.startswith("flatten raised ModificationTargetNotFound")
             or what in ("disagreement:flatten:status", "disagreement:flatten:variables", "disagreement:flatten:equations",
-                        "disagreement:flatten:initial-equations"))
+                        "disagreement:flatten:initial-equations", "disagreement:flatten:declaration-equations"))
